@@ -40,6 +40,9 @@ func nativeTypeMethods(t types.Type, name string) (Val, bool) {
 			}}, true
 		}
 	}
+	if nativeTypeMethodsExtra != nil {
+		return nativeTypeMethodsExtra(t, name)
+	}
 	return nil, false
 }
 
@@ -49,6 +52,21 @@ func (e *Exec) foreignGlobalInit(g *ssa.Global, et types.Type) Val {
 	}
 	if _, ok := et.Underlying().(*types.Interface); ok {
 		return &IfaceV{T: sentinelType, V: &NativeV{Kind: "sentinel", Data: g.String()}}
+	}
+	// constant initialisers of foreign globals (e.g. sqlite3.ErrBusy = ErrNo(5)):
+	// read them from the package initialiser's SSA instead of running it.
+	if g.Pkg != nil {
+		if initFn := g.Pkg.Func("init"); initFn != nil {
+			for _, b := range initFn.Blocks {
+				for _, in := range b.Instrs {
+					if st, ok := in.(*ssa.Store); ok && st.Addr == ssa.Value(g) {
+						if k, ok := st.Val.(*ssa.Const); ok {
+							return e.constVal(k)
+						}
+					}
+				}
+			}
+		}
 	}
 	return nil
 }
